@@ -216,7 +216,13 @@ func (h *fasthttpHandler) readReqMsg(ctx *fasthttp.RequestCtx) *dnsmsg.Msg {
 
 		buf := bufPool.Get()
 		defer bufPool.Release(buf)
-		_, err := buf.ReadFrom(io.LimitReader(ctx.Request.BodyStream(), 65535))
+		// fasthttp sets no body stream for a request that has neither a Content-Length
+		// nor a Transfer-Encoding header.
+		var body io.Reader = ctx.Request.BodyStream()
+		if body == nil {
+			body = bytes.NewReader(ctx.Request.Body())
+		}
+		_, err := buf.ReadFrom(io.LimitReader(body, 65535))
 		if err != nil {
 			h.logger.Warn().
 				Object("request", (*fasthttpReqLoggerObj)(ctx)).
